@@ -47,7 +47,10 @@ def plan(tier, seed):
     else:
         kinds = {"homogeneous": 120000, "hostile": 30000}
         per = 5000
-    return common.shards(kinds, per_shard=per, tier=tier, seed=seed)
+    _out = common.shards(kinds, per_shard=per, tier=tier, seed=seed)
+    if tier == "thorough":
+        _out = _out + [common.suite_shard(ID, tier, seed)]  # the repository's own tests under this monitor
+    return _out
 
 
 # ------------------------------------------------------------------ generation
@@ -360,6 +363,9 @@ def sentinels(rec):
 
 
 def run_shard(spec, rec):
+    if spec["kind"] == "suite":
+        common.run_suite(ID, rec)
+        return
     from droplets import droplet_tracks, emulsions
 
     rec.watch(emulsions.Emulsion._write_hdf_dataset, emulsions.Emulsion._from_hdf_dataset,
